@@ -875,25 +875,67 @@ def defaults(P, chk):
         chk.require(ok, R_DEF, "to_double_entry|%s under %s" % (lit.strip('"'), pred), b.loc(f[0]) if f else b.loc(),
                     "default %s: receiver is self.dest_account=%s, sign guards in force=%s" % (lit, f[1] if f else None, f[2] if f else None),
                     "self.dest_account.as_deref().unwrap_or(%s)" % lit)
-    # post_clear = self.clear_state.unwrap_or(match dest_account { Some => Uncleared, None => Pending })
+    # post_clear = the statement's own clear state when it has one, else Uncleared for an assigned account and Pending for
+    # an unknown one: a decision table over (clear_state, dest_account), whatever the spelling (unwrap_or(match ..), one
+    # tuple match, nested ifs)
     pcl = [i for i, l in enumerate(b.locals) if l["name"] == "post_clear"]
     ok = len(pcl) == 1
     detail = "no post_clear local"
     if ok:
-        d = mir.single_def(b, pcl[0])
-        ok = d is not None and d[0] == "call" and short(callee_def(d[4])) == "unwrap_or" and \
-            q.all_roots(b, d[4]["args"][0], lambda r: is_p(r, "self", ("clear_state",)))
-        detail = "post_clear is not self.clear_state.unwrap_or(..)"
-        if ok:
-            dl = d[4]["args"][1]["place"]["l"] if d[4]["args"][1].get("k") in ("copy", "move") else None
-            vals = {}
-            for dk, dbb, di, dpl, payload in b.defs().get(dl, []) if dl is not None else []:
-                if dk == "assign" and payload["k"] == "aggregate":
-                    for roots, labs in q.variant_guards(b, dbb):
-                        if any(is_p(r, "self", ("dest_account",)) for r in roots):
-                            vals[labs] = payload.get("variant")
-            ok = vals.get(("Some",)) == "Uncleared" and vals.get(("None",)) == "Pending"
-            detail = "default state by dest_account: %s" % {str(k): v for k, v in vals.items()}
+        leaves = []
+
+        def guards(bb):
+            g = {}
+            for roots, labs in q.variant_guards(b, bb):
+                if len(labs) != 1:
+                    continue
+                if any(is_p(r, "self", ("clear_state",)) for r in roots):
+                    g["cs"] = labs[0]
+                if any(is_p(r, "self", ("dest_account",)) for r in roots):
+                    g["da"] = labs[0]
+            return g
+
+        def walk(op, g, depth=0):
+            if depth > 6:
+                leaves.append((g, "?"))
+                return
+            if op.get("k") in ("copy", "move") and not op["place"]["p"]:
+                ds = [d for d in b.defs().get(op["place"]["l"], []) if not d[3]["p"]]
+            else:
+                ds = []
+            if not ds:
+                rs = prov(b, op)
+                if rs and all(is_p(r, "self") and r.fields[:1] == ("clear_state",) for r in rs):
+                    leaves.append((g, "own"))
+                else:
+                    leaves.append((g, "?" + ",".join(sorted(mir.show_root(r) for r in rs))))
+                return
+            for dk, dbb, di, dpl, payload in ds:
+                g2 = dict(g)
+                g2.update(guards(dbb))
+                if dk == "call":
+                    if short(callee_def(payload)) == "unwrap_or" and len(payload["args"]) == 2 and \
+                            q.all_roots(b, payload["args"][0], lambda r: is_p(r, "self", ("clear_state",))):
+                        leaves.append((dict(g2, cs="Some"), "own"))
+                        walk(payload["args"][1], dict(g2, cs="None"), depth + 1)
+                    else:
+                        leaves.append((g2, "?call:" + short(callee_def(payload))))
+                elif payload["k"] == "aggregate" and payload.get("variant"):
+                    leaves.append((g2, payload["variant"]))
+                elif payload["k"] == "use":
+                    walk(payload["op"], g2, depth + 1)
+                else:
+                    leaves.append((g2, "?" + payload["k"]))
+        walk({"k": "copy", "place": {"l": pcl[0], "p": []}}, {})
+        bad = []
+        for cs in ("Some", "None"):
+            for da in ("Some", "None"):
+                want = "own" if cs == "Some" else ("Uncleared" if da == "Some" else "Pending")
+                got = set(v for g, v in leaves if g.get("cs", cs) == cs and g.get("da", da) == da)
+                if got != {want}:
+                    bad.append("clear_state=%s, dest_account=%s -> %s (specified %s)" % (cs, da, sorted(got), want))
+        ok = not bad
+        detail = "; ".join(bad[:2])
     chk.require(ok, R_DEF, "to_double_entry|counter posting pending exactly when no account was assigned (unless set)", b.loc(), detail,
                 "clear_state.unwrap_or(Some(_) => Uncleared, None => Pending)")
     # the counter postings carry post_clear
@@ -906,7 +948,8 @@ def defaults(P, chk):
         uses_default = any(bb2 in [f[0] for f in found.values()] for bb2 in chain_sites(b, fields.get("account")))
         if uses_default:
             n += 1
-            okp = bool(pcl) and all(r.kind == "call" and r.site is not None and b.term(r.site)["dest"]["l"] == pcl[0] for r in cs)
+            okp = bool(pcl) and (q.named_local(b, fields["clear_state"]) == pcl[0] or
+                                 (bool(cs) and all(r.kind == "call" and r.site is not None and b.term(r.site)["dest"]["l"] == pcl[0] for r in cs)))
             chk.require(okp, R_DEF, "to_double_entry|counter posting #%d uses post_clear" % n, b.loc(abb),
                         "clear_state = %s" % sorted(mir.show_root(r) for r in cs), "clear_state: post_clear")
     chk.require(n == 2, R_DEF, "to_double_entry|two counter postings (one per sign)", b.loc(), "%d found" % n, "2")
